@@ -22,6 +22,8 @@ import Driver.PlaceDrv
 import Driver.LifeDrv
 import Driver.IqDrv
 import Driver.BulkDrv
+import Driver.StopDrv
+import Driver.StopRefDrv
 /-! `driver <model>`: reads harness output (cases) on stdin, prints one verdict line per case. -/
 open Driver
 
@@ -51,6 +53,8 @@ def dispatch (model : String) (c : Case) : String :=
   | "life" => LifeDrv.runCase c
   | "iq" => IqDrv.runCase c
   | "bulk" => BulkDrv.runCase c
+  | "stop" => StopDrv.runCase c
+  | "stopref" => StopRefDrv.runCase c
   | _ => s!"case {c.id} reject 0 unknown-model-{model}"
 
 def main (args : List String) : IO UInt32 := do
